@@ -1,0 +1,45 @@
+//go:build verif
+
+package imagehash
+
+// Verification hooks (build tag "verif" only): control over the pixel pools, so
+// that a check can decide what a hashing call finds in the buffer it is handed.
+
+// VerifResetPixelPools empties the four pixel pools (the next Get allocates).
+func VerifResetPixelPools() {
+	drain := func(get func() interface{}) {
+		for i := 0; i < 64; i++ {
+			_ = get()
+		}
+	}
+	drain(pixelsPool64.Get)
+	drain(pixelsPool256.Get)
+	drain(pixelsPool32.Get)
+	drain(pixelsPool256Alt.Get)
+}
+
+// VerifPoisonPixelPools puts n buffers filled by fill64/fill32 into each pool.
+func VerifPoisonPixelPools(n int, fill64 func(i int) float64, fill32 func(i int) float32) {
+	for k := 0; k < n; k++ {
+		a := make([]float64, 4096)
+		b := make([]float64, 65536)
+		c := make([]float32, 4096)
+		d := make([]float32, 65536)
+		for i := range a {
+			a[i] = fill64(i)
+		}
+		for i := range b {
+			b[i] = fill64(i)
+		}
+		for i := range c {
+			c[i] = fill32(i)
+		}
+		for i := range d {
+			d[i] = fill32(i)
+		}
+		pixelsPool64.Put(&a)
+		pixelsPool256.Put(&b)
+		pixelsPool32.Put(&c)
+		pixelsPool256Alt.Put(&d)
+	}
+}
